@@ -80,25 +80,27 @@ def cq_replay(repo, script_json):
 RT_FAMILY = {"C02", "C03", "C10", "C11"}
 
 
-def _build_rt(repo):
+def _build_rt(repo, name="rt_driver"):
     os.makedirs(WORK_BASE, exist_ok=True)
     tag = hashlib.sha1(repo.encode()).hexdigest()[:8]
-    d = os.path.join(WORK_BASE, "rt_driver-" + tag)
+    d = os.path.join(WORK_BASE, name + "-" + tag)
     os.makedirs(os.path.join(d, "src"), exist_ok=True)
-    cargo = open(os.path.join(ROOT, "replay/rt_driver/Cargo.toml")).read().replace("@REPO@", repo)
+    cargo = open(os.path.join(ROOT, "replay", name, "Cargo.toml")).read().replace("@REPO@", repo)
     open(os.path.join(d, "Cargo.toml"), "w").write(cargo)
-    shutil.copy(os.path.join(ROOT, "replay/rt_driver/src/main.rs"), os.path.join(d, "src/main.rs"))
+    shutil.copy(os.path.join(ROOT, "replay", name, "src/main.rs"), os.path.join(d, "src/main.rs"))
     for cand in (os.path.join(repo, "Cargo.lock"), "/repo/Cargo.lock"):
         if os.path.exists(cand):
             shutil.copy(cand, os.path.join(d, "Cargo.lock"))
             break
-    env = dict(os.environ, CARGO_NET_OFFLINE="true", RUSTFLAGS="--cfg tokio_unstable")
+    # rt_driver and tree_driver share one target directory per tree: `des` and its dependencies are compiled once
+    tdir = os.path.join(WORK_BASE, "des-drivers-target-" + tag)
+    env = dict(os.environ, CARGO_NET_OFFLINE="true", RUSTFLAGS="--cfg tokio_unstable", CARGO_TARGET_DIR=tdir)
     p = subprocess.run(["cargo", "build", "--offline"], cwd=d, env=env, stdout=subprocess.PIPE, stderr=subprocess.STDOUT, timeout=1800)
     out = p.stdout.decode("utf8", "replace")
     if p.returncode != 0:
         errs = [l for l in out.splitlines() if l.startswith("error")]
         return None, (errs or [out[-300:]])[0]
-    return os.path.join(d, "target/debug/rt_driver"), None
+    return os.path.join(tdir, "debug", name), None
 
 
 def rt_search(repo, prop, tier, seed=1):
@@ -138,5 +140,48 @@ def rt_search(repo, prop, tier, seed=1):
         if repo != "/repo":
             tag = hashlib.sha1(repo.encode()).hexdigest()[:8]
             shutil.rmtree(os.path.join(WORK_BASE, "rt_driver-" + tag), ignore_errors=True)
+            shutil.rmtree(os.path.join(WORK_BASE, "des-drivers-target-" + tag), ignore_errors=True)
+        fcntl.flock(lockf, fcntl.LOCK_UN)
+        lockf.close()
+
+
+def tree_search(repo, prop, tier, seed=1):
+    """C12 bounded replay (replay/tree_driver): random module trees / insertion orders / stage counts on the real `des` crate."""
+    t0 = time.time()
+    os.makedirs(WORK_BASE, exist_ok=True)
+    lockf = open(os.path.join(WORK_BASE, "rt_driver.lock"), "w")
+    fcntl.flock(lockf, fcntl.LOCK_EX)
+    try:
+        count = 100000 if tier == "thorough" else 5000
+        res = {"what": "bounded replay of C12 on the real `des` crate: %d seeded random module trees (<= 9 modules, depth <= 4, sibling names that are textual prefixes of each other), random admissible creation orders, 1..3 start-up stages per module; observed at_sim_start/at_sim_end calls against the reference (stage-major; inside a stage depth-first pre-order, siblings in creation order; each (module, stage) once; at_sim_end once per module, after all starts)" % count,
+               "bound": "%d random scenarios; seed %d" % (count, seed), "labelled": "bounded", "counts_as_proof": False}
+        exe, err = _build_rt(repo, "tree_driver")
+        if exe is None:
+            res.update({"status": "not_run", "reason": "driver does not build against this tree: " + err, "wall_s": round(time.time() - t0, 2)})
+            return res
+        try:
+            p = subprocess.run([exe, "search", str(count), str(seed)], stdout=subprocess.PIPE, stderr=subprocess.PIPE, timeout=900)
+        except subprocess.TimeoutExpired:
+            res.update({"status": "not_run", "reason": "time limit", "wall_s": round(time.time() - t0, 2)})
+            return res
+        line = (p.stdout.decode("utf8", "replace").strip().splitlines() or ["{}"])[-1]
+        try:
+            j = json.loads(line)
+        except Exception:
+            j = {}
+        res["wall_s"] = round(time.time() - t0, 2)
+        res["cmd"] = "tree_driver search %d %d   (built from replay/tree_driver against %s/des)" % (count, seed, repo)
+        if j.get("mismatch"):
+            res.update({"status": "mismatch", "mismatch": j})
+        elif "scenarios" in j:
+            res.update({"status": "no_mismatch", "scenarios": j["scenarios"]})
+        else:
+            res.update({"status": "not_run", "reason": "driver crashed: " + p.stderr.decode("utf8", "replace")[-300:]})
+        return res
+    finally:
+        if repo != "/repo":
+            tag = hashlib.sha1(repo.encode()).hexdigest()[:8]
+            shutil.rmtree(os.path.join(WORK_BASE, "tree_driver-" + tag), ignore_errors=True)
+            shutil.rmtree(os.path.join(WORK_BASE, "des-drivers-target-" + tag), ignore_errors=True)
         fcntl.flock(lockf, fcntl.LOCK_UN)
         lockf.close()
